@@ -90,7 +90,9 @@ def num_equal(text, value):
     try:
         if isinstance(value, (bool, np.bool_)):
             return text in (str(value), str(value).lower(), str(int(value)))
-        t = text.rstrip("fFlLuU")
+        t = text.strip()
+        if re.fullmatch(r"[-+]?(\d+\.?\d*|\.\d+)([eE][-+]?\d+)?[fFlLuU]+", t):
+            t = t.rstrip("fFlLuU")  # C literal suffixes (not the f of "inf")
         a, b = float(t), float(value)
         return a == b or (math.isnan(a) and math.isnan(b))
     except Exception:
@@ -185,7 +187,9 @@ def check_stablehlo(fa, graph, text):
                     raise Mismatch(f"named-constant-operator:{value}", f"constant {value} rendered as {node.op}<{node.attr}>")
             else:
                 if node.op != "StableHLO_ConstantLike" or node.attr is None or not num_equal(node.attr, value):
-                    raise Mismatch("constant-value", f"constant {value!r} rendered as {node.op}<{node.attr}>")
+                    # class of the value, so that a recorded finding about one class does not hide another
+                    vcls = "python-complex-literal" if type(value) is complex else ("numpy-scalar" if isinstance(value, np.generic) else type(value).__name__)
+                    raise Mismatch(f"constant-value:{vcls}", f"constant {value!r} rendered as {node.op}<{node.attr}>")
             if len(node.args) != 1:
                 raise Mismatch("constant-like-operand", f"constant {value!r}: like operand is {node.args}")
             if isinstance(node.args[0], parseback.SNode):
